@@ -33,6 +33,7 @@ func init() {
 	more["(*regexp.Regexp).Match"] = libReMatch
 	more["regexp.MustCompile"] = libMustCompile
 	more["strings.SplitN"] = libSplitN
+	more["strconv.ParseInt"] = libParseInt
 	more["strings.Split"] = libSplit
 	more["strconv.Atoi"] = libAtoi
 	more["strings.Contains"] = libContains
@@ -466,4 +467,18 @@ func libIndexOf(g *FuncGen, c *ast.CallExpr, callee *types.Func, st *State) []Va
 	g.assume(st, fmt.Sprintf("(= (>= %s 0) (contains %s %s))", r.T, a.T, b.T))
 	g.assume(st, fmt.Sprintf("(=> (>= %s 0) (= (bsub %s %s (+ %s (blen %s))) %s))", r.T, a.T, r.T, r.T, b.T, b.T))
 	return []Val{r}
+}
+
+// strconv.ParseInt(s, 10, 64): the decimal rendering of an int64 parses back to it (assumed); nothing is said about
+// other texts or bases
+func libParseInt(g *FuncGen, c *ast.CallExpr, callee *types.Func, st *State) []Val {
+	s := g.ev(c.Args[0], st)
+	base := g.ev(c.Args[1], st)
+	bits := g.ev(c.Args[2], st)
+	res := g.libResults(callee, st)
+	if base.T == "10" && bits.T == "64" {
+		g.assume(st, fmt.Sprintf("(forall ((n Int)) (! (=> (and (= %s (fmtd n 0)) (< (- 9223372036854775808) n) (< n 9223372036854775808)) (and (= %s 0) (= %s n))) :pattern ((fmtd n 0))))", s.T, res[1].T, res[0].T))
+		g.assume(st, fmt.Sprintf("(and (<= (- 9223372036854775808) %s) (<= %s 9223372036854775807))", res[0].T, res[0].T))
+	}
+	return res
 }
